@@ -180,4 +180,16 @@ META = {
         "not_decided": ["TZID / floating / DATE conversion inside tzify", "collation behaviour on arbitrary text", "prop-filter time-range on PERIOD values"],
         "technique": "static analysis: dispatch walk + abstract interpretation of comparison-only functions over all weak orderings",
     },
+    "C16": {
+        "explanation": "(D1) finite dispatch: traverse_resource walked branch-sensitively for depth in {0,1,infinity}; (D2) collection "
+                       "hrefs pass ensure_trailing_slash before the yield and child hrefs are joined onto them; (Q1) who-may-create: "
+                       "{DAV:}href elements are created only in create_href, which quotes once, read_href_element unquotes once; (Q2) "
+                       "encoding-state provenance {DECODED, QUOTED, URL, LATIN1}: no value reaching create_href / Status(href) is a URL "
+                       "with a scheme, already quoted, or an undecoded PEP 3333 string; (Q3) the POST Location header is QUOTED in all "
+                       "its parts; (F1) what WSGIRequest exposes for addressing resources passes through the UTF-8 re-decoding. The "
+                       "round-trip of an individual name through urljoin/quote/unquote is runtime string behaviour and is not decided.",
+        "trusted_base": ["urllib.parse.quote/unquote are inverse on paths", "aiohttp delivers request.path / match_info decoded"],
+        "not_decided": ["urljoin+quote/unquote round-trip for every member name (e.g. names that look like a scheme)", "route prefixes", "each member listed once"],
+        "technique": "static analysis: dispatch walk + encoding-state provenance + who-may-create",
+    },
 }
